@@ -37,6 +37,36 @@ pub fn open_db(path: &str, o: &Opts) -> Result<DB, String> {
     }
 }
 
+enum Nm {
+    V(Vec<u8>),
+    S(String),
+    Sl(&'static [u8]),
+    St(&'static str),
+}
+
+impl Nm {
+    fn pick(name: Vec<u8>, salt: u64) -> Nm {
+        let utf8 = std::str::from_utf8(&name).is_ok();
+        match (salt + name.len() as u64) % 4 {
+            1 if utf8 => Nm::S(String::from_utf8(name).unwrap()),
+            2 => Nm::Sl(Box::leak(name.into_boxed_slice())),
+            3 if utf8 => Nm::St(Box::leak(String::from_utf8(name).unwrap().into_boxed_str())),
+            _ => Nm::V(name),
+        }
+    }
+}
+
+macro_rules! with_name {
+    ($nm:expr, $x:ident => $e:expr) => {
+        match $nm {
+            Nm::V($x) => $e,
+            Nm::S($x) => $e,
+            Nm::Sl($x) => $e,
+            Nm::St($x) => $e,
+        }
+    };
+}
+
 fn fmt_data(d: &Data) -> String {
     match d {
         Data::KeyValue(kv) => format!("kv:{}:{}", hex(kv.key()), hex(kv.value())),
@@ -140,15 +170,19 @@ impl St {
     }
 
     fn getter(&mut self, kind: &str, t: u64, h: u64, name: Vec<u8>, nh: u64) -> String {
+        // the bucket name is passed as one of the library's name types (Vec<u8>, String, &[u8], &str), chosen from the
+        // command itself so that a history replays exactly: the ToBytes glue and the per-transaction bucket cache must
+        // not care which one the caller used
+        let name = Nm::pick(name, t + h + nh);
         let r: Result<Result<Bucket<'static, 'static>, jammdb::Error>, String> = if h == 0 {
             let tx: &'static Tx<'static> = match self.txs.get(&t) {
                 None => return "badop".into(),
                 Some(tx) => unsafe { std::mem::transmute(tx) },
             };
             guarded(|| match kind {
-                "create" => tx.create_bucket(name),
-                "getb" => tx.get_bucket(name),
-                _ => tx.get_or_create_bucket(name),
+                "create" => with_name!(name, x => tx.create_bucket(x)),
+                "getb" => with_name!(name, x => tx.get_bucket(x)),
+                _ => with_name!(name, x => tx.get_or_create_bucket(x)),
             })
         } else {
             let b = match self.handles.get(&(t, h)) {
@@ -156,9 +190,9 @@ impl St {
                 Some(b) => b,
             };
             guarded(|| match kind {
-                "create" => b.create_bucket(name),
-                "getb" => b.get_bucket(name),
-                _ => b.get_or_create_bucket(name),
+                "create" => with_name!(name, x => b.create_bucket(x)),
+                "getb" => with_name!(name, x => b.get_bucket(x)),
+                _ => with_name!(name, x => b.get_or_create_bucket(x)),
             })
         };
         match r {
@@ -247,17 +281,18 @@ impl St {
             "getbi" => self.getter_iter(n(1), n(2), unhex(w[3]), n(4)),
             "delb" => {
                 let (t, h, name) = (n(1), n(2), unhex(w[3]));
+                let name = Nm::pick(name, t + h);
                 if h == 0 {
                     match self.txs.get(&t) {
                         None => "badop".into(),
-                        Some(tx) => match guarded(|| tx.delete_bucket(name)) {
+                        Some(tx) => match guarded(|| with_name!(name, x => tx.delete_bucket(x))) {
                             Ok(Ok(())) => "ok".into(),
                             Ok(Err(e)) => err_name(&e),
                             Err(p) => p,
                         },
                     }
                 } else {
-                    self.bucket_op(t, h, |b| match b.delete_bucket(name) {
+                    self.bucket_op(t, h, |b| match with_name!(name, x => b.delete_bucket(x)) {
                         Ok(()) => "ok".into(),
                         Err(e) => err_name(&e),
                     })
@@ -299,8 +334,14 @@ impl St {
             }),
             "seek" => {
                 let k = unhex(w[3]);
+                // optional 5th word: the cursor has already handed out that many entries when it is asked to seek
+                // (a re-used cursor must behave like a fresh one)
+                let pre: usize = if w.len() > 4 { w[4].parse().unwrap_or(0) } else { 0 };
                 self.bucket_op(n(1), n(2), |b| {
                     let mut c = b.cursor();
+                    for _ in 0..pre {
+                        let _ = c.next();
+                    }
                     let found = c.seek(&k);
                     let mut it = c.map(|d| fmt_data(&d));
                     format!("seek:{}:{}", if found { 1 } else { 0 }, drain(&mut it, 2))
